@@ -162,6 +162,12 @@ OnlyVotersLeadStep(before, after, T) ==
     \A n \in T :
         (after[n].up /\ before[n].up /\ after[n].state = "L" /\ before[n].state # "L") => IsVoter(before[n].cfgL, n)
 
+\* a candidate counts only votes of voters of its own latest configuration
+OnlyVotersVoteStep(before, ev) ==
+    ("kind" \in DOMAIN ev /\ ev.kind = "voteResp" /\ "result" \in DOMAIN ev /\ ev.result = "success"
+       /\ "current" \in DOMAIN ev /\ ev.current /\ before[ev.n].up)
+      => IsVoter(before[ev.n].cfgL, ev.from)
+
 \* ---- C10: what a node acknowledged as stored (success reply to an append whose last index covers it)
 IsAppendAck(ev) == "kind" \in DOMAIN ev /\ ev.kind = "appendReq" /\ "result" \in DOMAIN ev /\ ev.result = "success" /\ "req" \in DOMAIN ev
 AckedAfter(gh, before, after, ev, n) ==
@@ -269,6 +275,7 @@ StepViolations(gh, before, after, ev, T) ==
   \cup (IF StopOnlyWhenRemovedStep(ev) THEN {} ELSE {"C11_StopOnlyWhenRemoved"})
   \cup (IF OnlyVotersCampaignStep(before, after, T) THEN {} ELSE {"C11_OnlyVotersCampaign"})
   \cup (IF OnlyVotersLeadStep(before, after, T) THEN {} ELSE {"C11_OnlyVotersLead"})
+  \cup (IF OnlyVotersVoteStep(before, ev) THEN {} ELSE {"C11_OnlyVotersVote"})
 
 \* T = the nodes touched by this step (pass DOMAIN after when unknown)
 GhostStep(gh, before, after, ev, T) ==
@@ -370,6 +377,7 @@ C08_ConfigOnlyWhenSafe(gh) == "C08_ConfigOnlyWhenSafe" \notin gh.bad
 
 \* C11: non-voters and removed nodes hold no authority
 C11_OnlyVotersCampaign(gh) == "C11_OnlyVotersCampaign" \notin gh.bad
+C11_OnlyVotersVote(gh) == "C11_OnlyVotersVote" \notin gh.bad
 C11_OnlyVotersLead(gh) == "C11_OnlyVotersLead" \notin gh.bad
 C11_PromoteAfterRound(gh) == "C11_PromoteAfterRound" \notin gh.bad
 C11_StopOnlyWhenRemoved(gh) == "C11_StopOnlyWhenRemoved" \notin gh.bad
